@@ -10,7 +10,13 @@ ID = "C11"
 LEVEL = "exploration"
 FLAVOUR = "plain"
 RULE = ("complete Cartesian products per primitive (see DESIGN.md C11 table): one pool task = one "
-        "(primitive, width/itemsize/...) cell that loops over counts x patterns x output capacities; "
+        "(primitive, width/itemsize/...) cell that loops over counts x patterns x output capacities "
+        "(capacity 0 = empty output included); hybrid streams additionally in an 'embedded' layout (input "
+        "entered at offset 3 and followed by a decoy run, output entered at offset 2 items, final input "
+        "position compared) and with a fixed list of long-run programs (run headers of 2, 3 and 4 bytes); "
+        "delta blocks for geometries 128/4, 256/8, 128/1, 256/2, 256/4, 384/4, value count 0, series with "
+        "|min_delta| >= 2^31 at small miniblock widths and first values at the type bounds; "
+        "write_bitpacked1 against LSB-first packing; "
         "'evaluations' counts cells, counts.calls counts primitive calls; a cell is non-trivial when at "
         "least one call decoded/encoded >= 1 value and was compared with the specification model")
 ASSUMPTIONS = ["specpq big-integer codecs are the specification", "numpy, CPython trusted",
@@ -38,6 +44,11 @@ def pattern(name, n, width):
 
 
 PATTERNS = ["zeros", "ones", "alt", "ramp", "table", "hibit"]
+DELTA_SERIES = ("const", "ramp", "down", "extremes", "table", "bigstep", "edgefirst")
+DELTA_GEOM_WIDTHS = (1, 7, 8, 9, 28)
+DELTA_CAP0_WIDTHS = (0, 1, 9, 28)
+DELTA_CAP0_WIDTHS_THOROUGH = (0, 1, 2, 7, 8, 9, 16, 17, 28)
+DELTA_GEOMS = ((128, 4), (256, 8), (128, 1), (256, 2), (256, 4), (384, 4))
 
 
 def points(tier):
@@ -50,6 +61,7 @@ def points(tier):
             pts.append({"prim": "read_rle", "width": w, "itemsize": itemsize})
             pts.append({"prim": "hybrid", "width": w, "itemsize": itemsize})
     pts.append({"prim": "bool"})
+    pts.append({"prim": "write_bitpacked1"})
     for w in range(0, 33):
         pts.append({"prim": "encoders", "width": w})
     pts.append({"prim": "writer_encoders"})
@@ -58,12 +70,23 @@ def points(tier):
         for w in range(0, 65 if longval else 33):
             for count in (1, 2, 31, 32, 33, 34, 128, 129, 257):
                 pts.append({"prim": "delta", "width": w, "longval": longval, "count": count})
+    for longval in (0, 1):
+        # a header announcing zero values (all-null page): no miniblock exists, so one width suffices
+        pts.append({"prim": "delta", "width": 0, "longval": longval, "count": 0})
+        # empty output (every value of the page is null): own points, a defect here kills the worker
+        for w in DELTA_CAP0_WIDTHS if tier != "thorough" else DELTA_CAP0_WIDTHS_THOROUGH:
+            for count in (0, 1, 2, 33, 129):
+                pts.append({"prim": "delta_cap0", "width": w, "longval": longval, "count": count})
+        # the width lattice at 64 values per miniblock (block 256 / 4 miniblocks), widths around byte borders
+        for w in DELTA_GEOM_WIDTHS if tier != "thorough" else range(0, 29):
+            for count in (2, 64, 65, 66, 129, 257):
+                pts.append({"prim": "delta", "width": w, "longval": longval, "count": count, "geom": [256, 4]})
     counts = [1, 2, 3, 31, 32, 33, 63, 64, 65, 127, 128, 129, 130, 255, 256, 257]
     if tier == "thorough":
         counts += [511, 512, 513, 1000, 4097]
     for longval in (0, 1):
-        for series in ("const", "ramp", "down", "extremes", "table"):
-            for n in counts:
+        for series in DELTA_SERIES:
+            for n in ([0] if series == "const" else []) + counts:
                 pts.append({"prim": "delta_shapes", "longval": longval, "series": series, "count": n})
     return pts
 
@@ -81,6 +104,8 @@ def crash_sig(point, res):
         if k in point:
             s[k] = point[k]
     s["width_or_series"] = point.get("width", point.get("series"))
+    if point["prim"] == "delta_cap0":
+        s["count"] = point["count"]
     return s
 
 
@@ -138,14 +163,17 @@ def run(point):
     return c.result()
 
 
-def _check_out(c, np, big, out, itemsize, expect, tell, what, cap, scratch_ok=False):
+def _check_out(c, np, big, out, itemsize, expect, tell, what, cap, scratch_ok=False, lead=0, **sigextra):
+    """lead: bytes of the canary-framed area in front of `out` (output entered at an offset);
+    sigextra: additional signature keys (only for input classes that did not exist before, e.g. count0)"""
     nb = len(out)
     cc = "lt" if cap < len(expect) else ("eq" if cap == len(expect) else "gt")
-    if not _canary_ok(big, nb):
-        c.bad("canary_overwritten", "%s: bytes outside the output slice were written" % what, cap=cc)
+    if not _canary_ok(big, lead + nb):
+        c.bad("canary_overwritten", "%s: bytes outside the output slice were written" % what, cap=cc, **sigextra)
     want_n = min(len(expect), cap)
     if tell != want_n * itemsize:
-        c.bad("wrong_count", "%s: tell()=%d, expected %d values x %d" % (what, tell, want_n, itemsize), cap=cc)
+        c.bad("wrong_count", "%s: tell()=%d, expected %d values x %d" % (what, tell, want_n, itemsize), cap=cc,
+              **sigextra)
     if itemsize == 4:
         got = out[:want_n * 4].view(np.uint32).tolist()
     elif itemsize == 8:
@@ -156,9 +184,10 @@ def _check_out(c, np, big, out, itemsize, expect, tell, what, cap, scratch_ok=Fa
     c.compared += want_n
     if got != exp:
         i = [k for k in range(want_n) if got[k] != exp[k]][0]
-        c.bad("wrong_value", "%s: value %d is %d, specification says %d" % (what, i, got[i], exp[i]), cap=cc)
+        c.bad("wrong_value", "%s: value %d is %d, specification says %d" % (what, i, got[i], exp[i]), cap=cc,
+              **sigextra)
     if not scratch_ok and out[want_n * itemsize:].tolist() != [CANARY] * (nb - want_n * itemsize):
-        c.bad("wrote_past_count", "%s: output written beyond the decoded values" % what, cap=cc)
+        c.bad("wrote_past_count", "%s: output written beyond the decoded values" % what, cap=cc, **sigextra)
 
 
 def run_varint(c, p, np, ce):
@@ -223,9 +252,7 @@ def run_read_bitpacked(c, p, np, ce):
                 buf = _inbuf(np, data)
                 fo = ce.NumpyIO(buf)
                 big, out = _outbuf(np, cap * isz)
-                o = ce.NumpyIO(out) if cap else None
-                if o is None:
-                    continue   # NumpyIO cannot wrap an empty buffer (documented: caller allocates >= 1)
+                o = ce.NumpyIO(out)   # cap 0: an empty slice inside the canary area (all-null pages do this)
                 ce.read_bitpacked(fo, (groups << 1) | 1, w, o, isz)
                 c.calls += 1
                 _check_out(c, np, big, out, isz, vals, o.tell(), "read_bitpacked(groups=%d,pattern=%s,cap=%d)" % (
@@ -242,7 +269,7 @@ def run_read_rle(c, p, np, ce):
     for count in (0, 1, 7, 8, 9, 1000):
         for v in sorted({0, 1 & m, m, m >> 1, (m >> 1) + 1 if w else 0}):
             data = v.to_bytes(nb, "little")
-            for cap in sorted({1, count - 1, count, count + 1, 3} & set(range(1, count + 2))):
+            for cap in sorted({0, 1, count - 1, count, count + 1, 3} & set(range(0, count + 2))):
                 buf = _inbuf(np, data)
                 fo = ce.NumpyIO(buf)
                 big, out = _outbuf(np, cap * isz)
@@ -256,37 +283,94 @@ def run_read_rle(c, p, np, ce):
 
 
 RUN_ALPHABET = [("rle", 1), ("rle", 9), ("bp", 8), ("bp", 16)]
+# run headers of 2, 3 and 4 bytes inside a hybrid stream (the dominant real shape: one long RLE run);
+# (program, capacities); None = the usual capacities around the total
+LONG_PROGRAMS = [
+    ([("rle", 1000)], None),
+    ([("bp", 512)], None),
+    ([("rle", 1000), ("bp", 8)], None),
+    ([("bp", 512), ("rle", 20000)], None),
+    ([("rle", 9), ("rle", 2100000)], (0, 9, 10, 1000)),
+]
+HYBRID_PRE = b"\x99\x81\xfe"          # bytes in front of the stream in the embedded layout
+HYBRID_OUT_OFF = 2                    # items already present in the output in the embedded layout
 
 
-def run_hybrid(c, p, np, ce):
+def _hybrid_stream(prog, w):
+    """-> (values, encoded bytes) of one run program; RLE values / bit-packed values from the fixed table"""
+    from mc.specpq import codecs as C
+    vals = []
+    data = bytearray()
+    for ri, (kind, n) in enumerate(prog):
+        if kind == "rle":
+            v = pattern("table", ri + 3, w)[ri + 2]
+            vals += [v] * n
+            data += C.rle_run(v, n, w)
+        else:
+            chunk = pattern("table", n + ri, w)[ri:]
+            vals += chunk
+            data += C.bp_run(chunk, w)
+    return vals, bytes(data)
+
+
+def _hybrid_calls(c, np, ce, w, isz, prog, vals, data, caps):
     import struct
     from mc.specpq import codecs as C
-    w, isz = p["width"], p["itemsize"]
-    for k in (1, 2, 3):
-        for prog in itertools.product(RUN_ALPHABET, repeat=k):
-            vals = []
-            for ri, (kind, n) in enumerate(prog):
-                if kind == "rle":
-                    vals += [pattern("table", ri + 3, w)[ri + 2]] * n
-                else:
-                    vals += pattern("table", n + ri, w)[ri:]
-            data = C.hybrid_encode(vals, w, list(prog))
-            total = len(vals)
-            for cap in sorted({1, total - 1, total, total + 1, 8, 9}):
-                for mode in ("length", "prefix"):
-                    if mode == "length":
-                        buf = _inbuf(np, data)
-                        length = len(data)
-                    else:
-                        buf = _inbuf(np, struct.pack("<I", len(data)) + data)
-                        length = 0
+    total = len(vals)
+    m = (1 << w) - 1 if w else 0
+    # a run that must never be decoded: it lies behind the announced length
+    decoy = C.rle_run((vals[-1] ^ m) if w else 0, 50, w)
+    for cap in caps:
+        for mode in ("length", "prefix"):
+            stream = data if mode == "length" else struct.pack("<I", len(data)) + data
+            length = len(data) if mode == "length" else 0
+            for layout in ("bare", "embedded"):
+                if layout == "bare":
+                    # exact-size input (an over-read leaves the allocation), both cursors at 0
+                    buf = _inbuf(np, stream)
                     fo = ce.NumpyIO(buf)
                     big, out = _outbuf(np, cap * isz)
                     o = ce.NumpyIO(out)
-                    ce.read_rle_bit_packed_hybrid(fo, w, length, o, isz)
-                    c.calls += 1
-                    _check_out(c, np, big, out, isz, vals, o.tell(),
-                               "hybrid(prog=%s,cap=%d,%s)" % (list(prog), cap, mode), cap)
+                    off = 0
+                    end = len(stream)
+                else:
+                    # the situation inside a v1 page: bytes before and after the stream, output partly filled
+                    buf = _inbuf(np, HYBRID_PRE + stream + decoy)
+                    fo = ce.NumpyIO(buf)
+                    fo.seek(len(HYBRID_PRE))
+                    off = HYBRID_OUT_OFF * isz
+                    big, full = _outbuf(np, off + cap * isz)
+                    o = ce.NumpyIO(full)
+                    o.seek(off)
+                    out = full[off:]
+                    end = len(HYBRID_PRE) + len(stream)
+                ce.read_rle_bit_packed_hybrid(fo, w, length, o, isz)
+                c.calls += 1
+                what = "hybrid(prog=%s,cap=%d,%s,%s)" % (list(prog), cap, mode, layout)
+                _check_out(c, np, big, out, isz, vals, o.tell() - off, what, cap, lead=off)
+                if layout == "embedded":
+                    if full[:off].tolist() != [CANARY] * off:
+                        c.bad("canary_overwritten", "%s: bytes in front of the output cursor were written" % what,
+                              layout=layout)
+                # input position: a fully decoded stream leaves the cursor at its end (the page reader
+                # continues from there); a truncated decode never passes the end
+                pos = fo.tell()
+                if (cap >= total and pos != end) or pos > end:
+                    c.bad("wrong_input_position", "%s: input cursor at %d, stream ends at %d" % (what, pos, end),
+                          cap="lt" if cap < total else ("eq" if cap == total else "gt"), layout=layout)
+
+
+def run_hybrid(c, p, np, ce):
+    w, isz = p["width"], p["itemsize"]
+    for k in (1, 2, 3):
+        for prog in itertools.product(RUN_ALPHABET, repeat=k):
+            vals, data = _hybrid_stream(prog, w)
+            total = len(vals)
+            _hybrid_calls(c, np, ce, w, isz, prog, vals, data, sorted({0, 1, total - 1, total, total + 1, 8, 9}))
+    for prog, caps in LONG_PROGRAMS:
+        vals, data = _hybrid_stream(prog, w)
+        total = len(vals)
+        _hybrid_calls(c, np, ce, w, isz, prog, vals, data, caps or (0, 1, total - 1, total, total + 1))
 
 
 def run_bool(c, p, np, ce):
@@ -299,7 +383,7 @@ def run_bool(c, p, np, ce):
             vals = pattern(pat, n, 1)
             data = C.bitpack(vals, 1)
             # read_bitpacked1 with every capacity
-            for cap in sorted({1, n - 1, n, n + 1, 8} & set(range(1, n + 2))):
+            for cap in sorted({0, 1, n - 1, n, n + 1, 8} & set(range(0, n + 2))):
                 buf = _inbuf(np, data)
                 fo = ce.NumpyIO(buf)
                 big, out = _outbuf(np, cap)
@@ -307,6 +391,9 @@ def run_bool(c, p, np, ce):
                 ce.read_bitpacked1(fo, n, o)
                 c.calls += 1
                 _check_out(c, np, big, out, 1, vals, o.tell(), "read_bitpacked1(n=%d,%s,cap=%d)" % (n, pat, cap), cap)
+                if fo.tell() != (n + 7) // 8:
+                    c.bad("wrong_input_position", "read_bitpacked1(n=%d,cap=%d) consumed %d bytes, %d values occupy %d"
+                          % (n, cap, fo.tell(), n, (n + 7) // 8), fn="read_bitpacked1")
             # read_plain_boolean
             if n:
                 got = enc.read_plain_boolean(bytes(data), n)
@@ -314,6 +401,16 @@ def run_bool(c, p, np, ce):
                 c.compared += n
                 if got.tolist() != [bool(v) for v in vals]:
                     c.bad("wrong_value", "read_plain_boolean(n=%d,%s)" % (n, pat), fn="read_plain_boolean")
+                if got.dtype != np.dtype(bool) or got.shape != (n,):
+                    c.bad("wrong_type", "read_plain_boolean(n=%d) returns dtype %s shape %s, expected bool (%d,)" % (
+                        n, got.dtype, got.shape, n), fn="read_plain_boolean")
+            else:
+                # an all-null page hands over zero bytes for zero values
+                got = enc.read_plain_boolean(b"", 0)
+                c.calls += 1
+                if len(got) != 0:
+                    c.bad("wrong_count", "read_plain_boolean(b'', 0) returns %d values" % len(got),
+                          fn="read_plain_boolean")
             # writer bool packing: PLAIN-encoded booleans must decode to the input
             se = parquet_thrift.SchemaElement(type=parquet_thrift.Type.BOOLEAN)
             packed = writer.encode_plain(pd.Series([bool(v) for v in vals], dtype=bool), se)
@@ -325,6 +422,46 @@ def run_bool(c, p, np, ce):
             c.compared += n
             if back != [bool(v) for v in vals]:
                 c.bad("wrong_value", "writer bool packing n=%d %s -> %r" % (n, pat, back), fn="writer_bool_pack")
+            # length: the n bits, at most one spare byte (readers skip it), and every padding bit is zero
+            need = (n + 7) // 8
+            pad = int.from_bytes(bytes(packed), "little") >> n
+            if not (need <= len(packed) <= need + 1) or pad:
+                c.bad("wrong_length", "writer bool packing n=%d %s: %d bytes for %d bits, padding bits %#x" % (
+                    n, pat, len(packed), n, pad), fn="writer_bool_pack")
+
+
+def run_write_bitpacked1(c, p, np, ce):
+    """encoder counterpart of read_bitpacked1 (one byte per input value -> PLAIN BOOLEAN bits, LSB first)"""
+    from mc.specpq import codecs as C
+    for n in list(range(0, 18)) + [63, 64, 65]:
+        for pat in ("zeros", "ones", "alt", "table"):
+            vals = pattern(pat, n, 1)
+            spec = C.bitpack(vals, 1)
+            buf = _inbuf(np, bytes(vals))
+            fo = ce.NumpyIO(buf)
+            nb = (n + 7) // 8
+            big, out = _outbuf(np, nb + 2)
+            o = ce.NumpyIO(out)
+            ce.write_bitpacked1(fo, n, o)
+            c.calls += 1
+            c.compared += n
+            what = "write_bitpacked1(n=%d,%s)" % (n, pat)
+            if not _canary_ok(big, len(out)):
+                c.bad("canary_overwritten", "%s wrote outside its buffer" % what)
+            if o.tell() != nb:
+                c.bad("wrong_count", "%s: %d bytes written for %d values" % (what, o.tell(), n))
+            got = bytes(out[:nb])
+            if got != spec:
+                # the same bits, each byte filled from its most significant end?
+                msb = bytes(sum(v << (len(vals[g:g + 8]) - 1 - j) for j, v in enumerate(vals[g:g + 8]))
+                            for g in range(0, n, 8))
+                c.bad("wrong_value", "%s = %s, PLAIN BOOLEAN packing is %s" % (what, got.hex(), spec.hex()),
+                      order="msb_first" if got == msb else "other")
+            if out[nb:].tolist() != [CANARY] * 2:
+                c.bad("wrote_past_count", "%s: output written beyond the packed bytes" % what)
+            if fo.tell() != n:
+                c.bad("wrong_input_position", "%s: input cursor at %d after %d one-byte values" % (what, fo.tell(), n),
+                      advance="x4" if fo.tell() == 4 * n else "other")
 
 
 def run_encoders(c, p, np, ce):
@@ -445,10 +582,10 @@ def run_byte_array(c, p, np, ce):
                 c.compared += len(items)
                 if bytes(packed) != spec:
                     c.bad("wrong_value", "pack_byte_array(%r lengths) differs from PLAIN BYTE_ARRAY" % (combo,), fn="pack_byte_array")
-                if not spec:
-                    continue
                 for n in sorted({0, k - 1, k, k + 1} & set(range(0, k + 2))):
-                    got = sp.unpack_byte_array(_inbuf(np, spec), n, utf)
+                    # zero items = zero bytes (empty dictionary page, all-null page): a truly empty buffer
+                    raw = _inbuf(np, spec) if spec else np.empty(0, dtype=np.uint8)
+                    got = sp.unpack_byte_array(raw, n, utf)
                     c.calls += 1
                     exp = [(b.decode("utf8") if utf else b) for b in items[:n]]
                     g = list(got[:min(n, k)])
@@ -456,6 +593,36 @@ def run_byte_array(c, p, np, ce):
                     if g != exp[:min(n, k)] or len(got) != n:
                         c.bad("wrong_value", "unpack_byte_array(lengths=%r,n=%d,utf=%d) -> %r" % (combo, n, utf, [type(x).__name__ for x in got]),
                               fn="unpack_byte_array")
+                    if getattr(got, "dtype", None) != np.dtype(object) or getattr(got, "shape", None) != (n,):
+                        c.bad("wrong_type", "unpack_byte_array(lengths=%r,n=%d) returns %s" % (
+                            combo, n, type(got).__name__), fn="unpack_byte_array")
+                    elif any(x is not None for x in got[min(n, k):]):
+                        c.bad("wrong_value", "unpack_byte_array(lengths=%r,n=%d): slots beyond the %d encoded items "
+                              "are not None" % (combo, n, k), fn="unpack_byte_array", slot="surplus")
+    # bytes that are not UTF-8 inside a UTF8 column: the item is decoded leniently (invalid bytes dropped) and
+    # - what matters for the codec - the items behind it are still found at the right offsets
+    for bad_item in (b"\xff\xfeab", b"ab\xc3", b"\x80"):
+        items = [b"x", bad_item, "é".encode("utf8"), b""]
+        spec = C.plain_encode(items, "BYTE_ARRAY")
+        try:
+            got = list(sp.unpack_byte_array(_inbuf(np, spec), len(items), 1))
+        except Exception as e:
+            got = "%s: %s" % (type(e).__name__, e)
+        c.calls += 1
+        c.compared += len(items)
+        if got != [b.decode("utf8", "ignore") for b in items]:
+            c.bad("wrong_value", "unpack_byte_array(utf=1) with the invalid item %r -> %r" % (bad_item, got),
+                  fn="unpack_byte_array", slot="invalid_utf8")
+    # anything but exact bytes objects is refused, not packed from its raw memory
+    for wrong in ("ab", bytearray(b"ab"), None, 5):
+        try:
+            r = sp.pack_byte_array([b"x", wrong])
+        except TypeError:
+            r = None
+        c.calls += 1
+        if r is not None:
+            c.bad("wrong_value", "pack_byte_array accepts a %s item -> %r" % (type(wrong).__name__, bytes(r)[:20]),
+                  fn="pack_byte_array", slot="non_bytes")
 
 
 def _delta_values(width, count, longval, shape=0):
@@ -503,17 +670,45 @@ def _delta_call(c, np, ce, vals, longval, cap, what, block=128, mini=4, force=No
     c.calls += 1
     m = (1 << (8 * isz)) - 1
     # the delta decoder uses spare output capacity as scratch space: allowed
-    _check_out(c, np, big, out, isz, [v & m for v in vals], o.tell(), what, cap, scratch_ok=True)
+    extra = {} if vals else {"count": 0}
+    _check_out(c, np, big, out, isz, [v & m for v in vals], o.tell(), what, cap, scratch_ok=True, **extra)
 
 
 def run_delta(c, p, np, ce):
     w, lv = p["width"], p["longval"]
+    block, mini = p.get("geom", (128, 4))
     for count in (p["count"],):
         for shape in (0, 1):
             vals = _delta_values(w, count, lv, shape)
-            for cap in sorted({count - 1, count, count + 1} - {0}):
-                _delta_call(c, np, ce, vals, lv, cap, "delta_binary_unpack(count=%d,shape=%d,cap=%d)" % (count, shape, cap),
-                            force=w if count > 2 else None)
+            # capacity 0 has its own points (delta_cap0)
+            for cap in sorted({count - 1, count, count + 1, 2 if not count else count} - {-1, 0}):
+                _delta_call(c, np, ce, vals, lv, cap, "delta_binary_unpack(count=%d,shape=%d,cap=%d,block=%d/%d)" % (
+                    count, shape, cap, block, mini), block, mini, force=w if count > 2 else None)
+
+
+def run_delta_cap0(c, p, np, ce):
+    """delta_binary_unpack into an output of capacity 0: nothing may be written, tell() stays 0.
+    For counts 0 and 1 (modulo the block size) the stream holds no (further) block; the decoder (known
+    finding: it reads a block header anyway) then takes the miniblock widths from the bytes that follow, so those are made explicit: a block header
+    announcing `width` for every miniblock follows the stream."""
+    from mc.specpq import codecs as C
+    w, lv, count = p["width"], p["longval"], p["count"]
+    bits, isz = (64, 8) if lv else (32, 4)
+    for shape in (0, 1):
+        # constant stride: every miniblock of the stream is announced with exactly `width` bits
+        vals = [(-5, 1 << (bits - 2))[shape] + (3, -7)[shape] * i for i in range(count)]
+        enc = C.delta_encode(vals, bits, 128, 4, lambda b, m, x: max(x, w))
+        # counts 0 and 1 modulo the block size: no (further) block in the stream
+        tail = b"\x00" + bytes([w]) * 4 + b"\x00" * (16 * max(w, 1)) if count % 128 < 2 else b""
+        buf = _inbuf(np, enc + tail)
+        fo = ce.NumpyIO(buf)
+        big, out = _outbuf(np, 0)
+        o = ce.NumpyIO(out)
+        ce.delta_binary_unpack(fo, o, lv)
+        c.calls += 1
+        c.compared += 1
+        _check_out(c, np, big, out, isz, [v & ((1 << bits) - 1) for v in vals], o.tell(),
+                   "delta_binary_unpack(count=%d,shape=%d,cap=0)" % (count, shape), 0, scratch_ok=True)
 
 
 def run_delta_shapes(c, p, np, ce):
@@ -528,19 +723,41 @@ def run_delta_shapes(c, p, np, ce):
         # 20-bit magnitudes: every miniblock needs < 29 bits
         "table": lambda n: [((TABLE[i % 4096] >> 5) & 0xFFFFF) - 0x80000 for i in range(n)],
     }
+    # large strides with a tiny spread (hourly nanosecond timestamps): min_delta beyond 32 bits, miniblock width 2
+    step = 1 << (40 if lv else 29)
+    wrap = lambda v: ((v - lo) % (1 << bits)) + lo
+    multi = {
+        "bigstep": [lambda n: [wrap(7 - i * step + i % 3) for i in range(n)],
+                    lambda n: [wrap(-7 + i * step + i % 3) for i in range(n)]],
+        # first value at the bounds of the type, small deltas afterwards
+        "edgefirst": [lambda n: [lo + (i * i) % 11 + 2 * i for i in range(n)],
+                      lambda n: [hi - (i * i) % 11 - 2 * i for i in range(n)],
+                      lambda n: [lo + 1 + 3 * i for i in range(n)],
+                      lambda n: [hi - 1 - 3 * i for i in range(n)]],
+    }
+    if p["series"] in multi:
+        for k, f in enumerate(multi[p["series"]]):
+            for block, mini in DELTA_GEOMS:
+                _delta_call(c, np, ce, f(p["count"]), lv, p["count"], "delta(%s#%d,n=%d,block=%d/%d)" % (
+                    p["series"], k, p["count"], block, mini), block, mini)
+        return
     counts = [p["count"]]
     for name, f in series.items():
         if name != p["series"]:
             continue
         for n in counts:
-            for block, mini in ((128, 4), (256, 8), (128, 1), (256, 2)):
-                _delta_call(c, np, ce, f(n), lv, n, "delta(%s,n=%d,block=%d/%d)" % (name, n, block, mini), block, mini)
+            for block, mini in DELTA_GEOMS:
+                for cap in ((1, 2) if n == 0 else (n,)):
+                    _delta_call(c, np, ce, f(n), lv, cap, "delta(%s,n=%d,block=%d/%d,cap=%d)" % (
+                        name, n, block, mini, cap), block, mini)
 
 LEVEL_TEXT = ("Every primitive codec of the compiled extension is executed on the complete product of its "
-              "bounded domain (widths 0..32 / 0..64, counts around 8/32/128, 6 value patterns, output "
-              "capacities count-1/count/count+1 and more, item sizes 1 and 4, all varint lengths) and "
-              "compared value by value with a big-integer specification model; canary bytes detect writes "
-              "outside the output. Exhaustive over that finite lattice, which is exactly the property's quantifier.")
+              "bounded domain (widths 0..32 / 0..64, counts 0 and around 8/32/128, 6 value patterns, output "
+              "capacities 0/count-1/count/count+1 and more, item sizes 1 and 4, all varint lengths, hybrid streams "
+              "at offsets inside a larger buffer and with long runs, six delta block geometries, deltas beyond "
+              "32 bits) and compared value by value - and, where the page reader depends on it, by final input "
+              "position - with a big-integer specification model; canary bytes detect writes outside the "
+              "output. Exhaustive over that finite lattice, which is exactly the property's quantifier.")
 LEVEL_NOTE = ("Trusted: specpq codecs (written from the spec, self-checked), numpy, CPython. Verifies the C "
               "generated from the .pyx as present in the working tree (no Cython in the sandbox).")
 TECHNIQUE = "bounded exhaustive enumeration of the primitive-codec lattice on the real compiled code vs a spec model"
